@@ -266,3 +266,25 @@ Proof.
   split; [|vm_compute; repeat split].
   cbn [classify nv_s8 mod_ok app]. fn_ok_tac; try (vm_compute; intuition discriminate); cbn [fn_ok]; fn_ok_tac.
 Qed.
+
+(* ---------------------------------------------------------------- stage 5b: calls nested anywhere in expressions and conditions
+   (arguments containing calls, recursion in operand position: fib) *)
+Definition nv_s9 : source :=
+  [ SAssign vh (EFn [vx] [SReturn (Some (EBin BMul (EVar vx) (EInt 2)))]);
+    SAssign vf (EFn [vn] [ SIf (EBin BLt (EVar vn) (EInt 2)) [ SReturn (Some (EVar vn)) ];
+                           SReturn (Some (EBin BAdd (ESelf [EBin BSub (EVar vn) (EInt 1)]) (ESelf [EBin BSub (EVar vn) (EInt 2)]))) ]);
+    SAssign vk (EInt 0);
+    SPrint (EBin BAdd (EBin BMul (ECall (EVar vf) [EInt 10]) (EInt 2)) (ECall (EVar vh) [ECall (EVar vf) [ECall (EVar vh) [EInt 3]]]));
+    SWhile (EBin BLt (ECall (EVar vh) [EVar vk]) (ECall (EVar vf) [EInt 5]))
+      [ SOpAssign vk BAdd (ECall (EVar vf) [EInt 2]);
+        SIfElse (EAnd (EBin BEq (ECall (EVar vf) [EVar vk]) (EInt 1)) (ENot (EBin BGt (ECall (EVar vh) [EVar vk]) (EInt 3))))
+          [ SPrint (EVar vk) ] [ SAssert (EBin BGe (ECall (EVar vh) [EVar vk]) (ENeg (EBin BAdd (ECall (EVar vf) [EInt 1]) (EInt 0)))) [115%N] ] ];
+    SPrint (EVar vk) ].
+Example C01_nv_stage5b :
+  mod_ok [] [] (classify nv_s9) /\
+  vm_out nv_s9 5000 = (fst (run 5000 nv_s9), Done) /\ snd (run 5000 nv_s9) = RODone /\
+  fst (run 5000 nv_s9) = [[49; 50; 54]; [49]; [51]]%N.
+Proof.
+  split; [|vm_compute; repeat split].
+  cbn [classify nv_s9 mod_ok app]. fn_ok_tac; try (vm_compute; intuition discriminate); cbn [fn_ok]; fn_ok_tac.
+Qed.
